@@ -158,12 +158,12 @@ func init() {
 	}
 	add(&Spec{Name: "EXPIRE", Pos: []Kind{Key, Int}, Tail: TOptional, Family: "expire", Build: func(p, t []string) []srv.Call {
 		o := expOpt(t)
-		o.Time = Clock.Add(time.Duration(atoi(p[1])) * time.Second).UnixNano()
+		o.Time = srv.TM(Clock.Add(time.Duration(atoi(p[1])) * time.Second))
 		return []srv.Call{call("Expire", p[0], o)}
 	}})
 	add(&Spec{Name: "EXPIREAT", Pos: []Kind{Key, Int}, Tail: TOptional, Family: "expire", Build: func(p, t []string) []srv.Call {
 		o := expOpt(t)
-		o.Time = time.Unix(int64(atoi(p[1])), 0).UnixNano()
+		o.Time = srv.TM(time.Unix(int64(atoi(p[1])), 0))
 		return []srv.Call{call("Expire", p[0], o)}
 	}})
 	add(&Spec{Name: "KEYS", Pos: []Kind{Str}, Family: "key1", Build: func(p, t []string) []srv.Call {
@@ -226,10 +226,10 @@ func init() {
 				o.PX = int64(time.Duration(atoi(t[i])) * time.Millisecond)
 			case "EXAT":
 				i++
-				o.EXAT = time.Unix(int64(atoi(t[i])), 0).UnixNano()
+				o.EXAT = srv.TM(time.Unix(int64(atoi(t[i])), 0))
 			case "PXAT":
 				i++
-				o.PXAT = time.UnixMilli(int64(atoi(t[i]))).UnixNano()
+				o.PXAT = srv.TM(time.UnixMilli(int64(atoi(t[i]))))
 			}
 		}
 		return []srv.Call{call("Set", p[0], p[1], o)}
